@@ -1130,6 +1130,8 @@ func c06Run(c *Case) (string, []Fail) {
 		return c06RunMetric(c)
 	case 5:
 		return c06RunE2E(c)
+	case 6:
+		return c06RunKey(c)
 	}
 	return "badcase", nil
 }
